@@ -67,16 +67,29 @@ package pq
 //@   modifies pq.heap[*], old(pq.heap[i]).heapIndex, old(pq.heap[j]).heapIndex
 //@   safety on
 
+// Heap order: a parent's key is not greater than its children's keys. pqHeapExcept(q, h): order holds for every parent / child
+// pair that does not touch slot h (h == 0: everywhere).
+//@ spec func pqOrd(q *PriorityQueue, p Int, c Int) Bool = cmpv(q.comp, val(q.heap[p].key), val(q.heap[c].key)) <= 0
+//@ spec func pqHeapExcept(q *PriorityQueue, h Int) Bool = forall p Int, c Int :: 1 <= p && (c == 2 * p || c == 2 * p + 1) && c <= q.size && p != h && c != h ==> pqOrd(q, p, c)
+
 //@ func (*PriorityQueue).downHeap
 //@   props C16
-//@   requires [shape] pqShape(pq)
+//@   requires [shape] pqShape(pq) && pq.size < 4611686018427387904
 //@   ensures [shape-kept] pqShape(pq) && pq.size == old(pq.size) && pq.heap === old(pq.heap)
+//@   ensures [C16:heap-order-restored] old(cmpOK(pq.comp) && pqHeapExcept(pq, 1)) ==> pqHeapExcept(pq, 0)
 //@   modifies pq.heap[*]
 //@   safety on
 //@   loop 0
-//@     invariant 1 <= i && i <= pq.size && 2 <= j && element != nil && element.iterator != nil
+//@     invariant 1 <= i && i <= pq.size && 2 <= j && element != nil && element.iterator != nil && (j == 2 * i || (j == 2 * i + 1 && j <= pq.size))
 //@     invariant pq.size == old(pq.size) && pq.heap === old(pq.heap) && len(pq.heap) == pq.size + 1 && pq.comp != nil
 //@     invariant forall c Int :: 1 <= c && c <= pq.size ==> pq.heap[c] != nil && pq.heap[c].iterator != nil
+//@     invariant [order-away-from-the-hole] old(cmpOK(pq.comp) && pqHeapExcept(pq, 1)) ==> cmpOK(pq.comp) && pqHeapExcept(pq, i)
+//@     invariant [grandparent-below-grandchildren] old(cmpOK(pq.comp) && pqHeapExcept(pq, 1)) ==>
+//@               forall g Int, c Int :: 1 <= g && (i == 2 * g || i == 2 * g + 1) && (c == 2 * i || c == 2 * i + 1) && c <= pq.size ==> pqOrd(pq, g, c)
+//@     invariant [parent-of-the-hole-below-the-element] old(cmpOK(pq.comp) && pqHeapExcept(pq, 1)) ==>
+//@               forall g Int :: 1 <= g && (i == 2 * g || i == 2 * g + 1) ==> cmpv(pq.comp, val(pq.heap[g].key), val(element.key)) <= 0
+//@     invariant [j-is-the-smaller-child] old(cmpOK(pq.comp) && pqHeapExcept(pq, 1)) && j <= pq.size ==>
+//@               forall c Int :: (c == 2 * i || c == 2 * i + 1) && c <= pq.size ==> pqOrd(pq, j, c)
 
 //@ func (*PriorityQueue).upHeap
 //@   props C16
